@@ -177,6 +177,30 @@ type world struct {
 	l  locker
 	x  *qx.Exec
 	ps []*proc
+	// chain[p] = q: worker p continues the goroutine of worker q - "the goroutine that holds q's keys
+	// asks for more".  sync.RWMutex has no owner, so for the locker one goroutine that holds the keys of
+	// two calls is two workers with two constraints: p calls only while q holds and only keys above all
+	// of q's (the goroutine respects the global key order), and q unlocks only when p is idle again.
+	chain map[int]int
+}
+
+func (wd *world) succOf(q int) int {
+	for p, pq := range wd.chain {
+		if pq == q {
+			return p
+		}
+	}
+	return 0
+}
+
+func (wd *world) mayUnlock(q int) bool {
+	if wd.ps[q-1].status != "held" {
+		return false
+	}
+	if p := wd.succOf(q); p != 0 && wd.ps[p-1].status != "idle" {
+		return false
+	}
+	return true
 }
 
 func (wd *world) poll() {
@@ -217,12 +241,23 @@ func (wd *world) step(a act, rng *rand.Rand) (act, bool) {
 		if !wd.l.multi() {
 			ks = ks[:1]
 		}
+		if q, ok := wd.chain[a.P]; ok {
+			pq := wd.ps[q-1]
+			if pq.status != "held" {
+				return a, false
+			}
+			for _, hk := range pq.ks {
+				if hk >= ks[0] {
+					return a, false
+				}
+			}
+		}
 		a.Ks = ks
 		p.ks, p.m, p.multi, p.status = ks, a.M, rng.Intn(2) == 0, "parked"
 		l, m, multi := wd.l, a.M, p.multi
 		wd.x.Issue(a.P, func() interface{} { return guard(func() { l.lock(ks, m, multi) }) })
 	case "unlock":
-		if p.status != "held" {
+		if !wd.mayUnlock(a.P) {
 			return a, false
 		}
 		p.unl = true
@@ -251,12 +286,25 @@ func (wd *world) emit(w *tr.W, a act) {
 }
 
 func runPlan(w *tr.W, rng *rand.Rand, src, variant string, shards, nprocs int, plan []act) {
-	wd := &world{l: newLocker(variant, shards), x: qx.New(nprocs)}
+	runChainPlan(w, rng, src, variant, shards, nprocs, nil, plan)
+}
+
+func runChainPlan(w *tr.W, rng *rand.Rand, src, variant string, shards, nprocs int, chain map[int]int, plan []act) {
+	wd := &world{l: newLocker(variant, shards), x: qx.New(nprocs), chain: chain}
 	for i := 0; i < nprocs; i++ {
 		wd.ps = append(wd.ps, &proc{status: "idle"})
 	}
 	w.Emit(tr.E{"ev": "reset", "variant": variant, "shards": shards, "src": src})
+	var skipped []act
 	for _, a := range plan {
+		if b, ok := wd.step(a, rng); ok {
+			wd.emit(w, b)
+		} else if chain != nil {
+			skipped = append(skipped, a)
+		}
+	}
+	// with chains a step may have come before the step it depends on: one more try, in order
+	for _, a := range skipped {
 		if b, ok := wd.step(a, rng); ok {
 			wd.emit(w, b)
 		}
@@ -264,8 +312,8 @@ func runPlan(w *tr.W, rng *rand.Rand, src, variant string, shards, nprocs int, p
 	// drain: unlock whoever holds until nobody does; anybody still parked then is deadlocked
 	for round := 0; round < 8*nprocs; round++ {
 		done := true
-		for i, p := range wd.ps {
-			if p.status == "held" {
+		for i := range wd.ps {
+			if wd.mayUnlock(i + 1) {
 				if b, ok := wd.step(act{Op: "unlock", P: i + 1}, rng); ok {
 					wd.emit(w, b)
 				}
@@ -288,8 +336,10 @@ func runPlan(w *tr.W, rng *rand.Rand, src, variant string, shards, nprocs int, p
 }
 
 // lock-order probes for long multi-key lists: for a long ordered list L and a pair a < b of its keys
-//   P3 Lock(a);  P1 Locks(L) (parks on a, holding whatever precedes a in its internal order);
-//   P2 RLocks([a,b]) (parks on a);  P3 Unlock(a)  -> the pending reader P2 gets a and goes for b.
+//
+//	P3 Lock(a);  P1 Locks(L) (parks on a, holding whatever precedes a in its internal order);
+//	P2 RLocks([a,b]) (parks on a);  P3 Unlock(a)  -> the pending reader P2 gets a and goes for b.
+//
 // If P1's internal order had b before a although the caller's list has a before b, P1 and P2 now
 // wait for each other: two callers with consistently ordered duplicate-free lists are deadlocked.
 func runProbes(w *tr.W, rng *rand.Rand, variant string, shards, listLen, universe, maxPairs int) {
@@ -318,6 +368,44 @@ func runProbes(w *tr.W, rng *rand.Rand, variant string, shards, listLen, univers
 			{Op: "unlock", P: 3},
 		}
 		runPlan(w, rng, "probe", variant, shards, 3, plan)
+	}
+}
+
+// nested probes: goroutines that hold the keys of more than one call.  Worker 3 continues worker 1 (see
+// world.chain).  Over two keys a < b, in every order that keeps G0' behind G0:
+//
+//	H  = worker 4: RLocks/Locks [b] and its unlock   (creates b's entry before or after a's)
+//	G0 = worker 1: call [a]          G0' = worker 3: call [b]   (one goroutine, ascending)
+//	G1 = worker 2: call [a, b]
+//
+// All lists are ascending and duplicate free, so on a locker that takes the keys of one call in an order
+// compatible with the callers' key order nobody may be left parked at the end.
+func runNestProbes(w *tr.W, rng *rand.Rand, variant string, n int) {
+	for i := 0; i < n; i++ {
+		a := 1 + rng.Intn(6)
+		b := a + 1 + rng.Intn(6)
+		md := func() string {
+			if rng.Intn(2) == 0 {
+				return "r"
+			}
+			return "w"
+		}
+		steps := []act{
+			{Op: "call", P: 4, Ks: []int{b}, M: md()},
+			{Op: "call", P: 1, Ks: []int{a}, M: md()},
+			{Op: "call", P: 2, Ks: []int{a, b}, M: md()},
+			{Op: "call", P: 3, Ks: []int{b}, M: md()},
+			{Op: "unlock", P: 4},
+		}
+		if rng.Intn(3) == 0 { // a third key between: longer lists, more entries
+			c := b + 1 + rng.Intn(3)
+			steps[2].Ks = []int{a, b, c}
+			if rng.Intn(2) == 0 {
+				steps[3].Ks = []int{b, c}
+			}
+		}
+		rng.Shuffle(len(steps), func(i, j int) { steps[i], steps[j] = steps[j], steps[i] })
+		runChainPlan(w, rng, "nest", variant, 1, 4, map[int]int{3: 1}, steps)
 	}
 }
 
@@ -453,6 +541,7 @@ func main() {
 	nrand := flag.Int("rand", 100, "random schedules")
 	nstress := flag.Int("nstress", 10, "stress runs")
 	nprobe := flag.Int("nprobe", 5, "long-list lock-order probe families")
+	nnest := flag.Int("nnest", 200, "nested-hold probes (a goroutine holding the keys of two calls)")
 	probePairs := flag.Int("probepairs", 60, "pairs probed per long list")
 	only := flag.String("only", "", "restrict to variants containing one of these comma-separated fragments (e.g. \"g-,gx-\" = sharded groups only)")
 	flag.Parse()
@@ -491,6 +580,27 @@ func main() {
 			tv = "tkgx-int"
 		}
 		runProbes(w, rng, tv, []int{73, 3, 2, 73, 1}[i%5], []int{13, 16, 24, 20, 14}[i%5], 36, *probePairs)
+	}
+	// goroutines holding the keys of several calls (un-sharded lockers: there the callers' key order is
+	// the only order there is; a sharded group takes the keys of one call shard by shard)
+	unsh := []string{"tk-int", "tk-str", "kl-int", "kl-str", "kl-mix"}
+	if *only == "" {
+		for i := 0; i < *nnest; i++ {
+			runNestProbes(w, rng, unsh[i%2], 1)
+		}
+		if *plans != "" {
+			files, _ := filepath.Glob(filepath.Join(*plans, "*.ndjson"))
+			sort.Strings(files)
+			for i, f := range files {
+				p := readPlan(f)
+				runChainPlan(w, rng, "chainplan:"+filepath.Base(f), unsh[i%len(unsh)], 1, 5, map[int]int{3: 2, 4: 1}, p[1:])
+			}
+		}
+		for i := 0; i < *nrand/2; i++ {
+			np := 4 + rng.Intn(2)
+			nk := rng.Intn(3) + 3
+			runChainPlan(w, rng, "chainrand", unsh[rng.Intn(len(unsh))], 1, np, map[int]int{3: 1, 4: 2}, randPlan(rng, np, nk, 30+rng.Intn(40)))
+		}
 	}
 	w.Close()
 	sw := tr.Create(*stress)
